@@ -156,6 +156,9 @@ impl Prop for C15 {
     fn id(&self) -> &'static str {
         "C15"
     }
+    fn canary(&self) -> bool {
+        true
+    }
     fn rule(&self) -> String {
         "cases = (Rust integer type in {u8,i8,u16,i16,u32,i32,u64,i64,usize,isize} or generic Value::Int/UInt) x (column type in {TINY,SHORT,YEAR,INT24,LONG,LONGLONG} x {signed,unsigned}) (optionally with other column flag bits such as ZEROFILL or BINARY set, which must not matter) x a set of values: ALL values for 8- and 16-bit types (enumerated, exhaustive), all 2^k, 2^k+-1, -(2^k)+-1 and range bounds for wider types (enumerated), plus random wide values. Every other value of a set is first written to a writer that breaks after 0-2 bytes (text and binary encoders), and the next value written to a healthy writer on the same thread must be exactly itself (no encoder state survives a failed write). Each value goes through the public encoder to_mysql_bin; oracle: Ok => bytes decoded at the column's wire width and signedness equal the value as a mathematical integer; it must be accepted when the column's range contains the whole fixed-width Rust type (for usize/isize: the value); otherwise any refusal is fine. A sample additionally travels through a real binary resultset, as the second cell of a two-column row next to a column of the opposite signedness, written both column-by-column and as write_col + write_row. Enumerated (and 1 in 4000 generated) cases send the accepted values, in the text and in the binary protocol, as the cells that follow a byte string filling the row up to d bytes from the 2^24-1-byte packet boundary (d = -70..1), so that integer encodings start before, on and after the boundary and straddle it. Non-trivial = the value set contains a value the column cannot represent, or a value outside i8's range.".into()
     }
